@@ -1317,6 +1317,188 @@ func ruleCaseFold(c *Ctx, rule string) {
 	if n == 0 {
 		c.und(rule, "alphabet.newAlphabet/uncased-table-fill", fn.Pos(), "no table-filling loop found in the case-insensitive branch")
 	}
+	// both cases of the definition are walked: the strings ranged over on the case-insensitive path, taken
+	// together, hold the lower-case and the upper-case image of the definition. A string is described by
+	// its parts in order ("lower", "upper"); a slice at len(definition) of a two-part string selects one.
+	// Only shapes understood in full are judged: anything else counts as covering both.
+	isDefLen := func(v ssa.Value) bool {
+		if call := builtinCall(v, "len"); call != nil {
+			o := origin(call.Call.Args[0], nil, 0)
+			return o == "raw" || o == "folded"
+		}
+		if u, ok := v.(*ssa.UnOp); ok && u.Op == token.MUL {
+			if name, ok := fieldOf(u.X, pkg, "alpha"); ok && name == "length" {
+				return true
+			}
+		}
+		return false
+	}
+	var parts func(v ssa.Value, depth int) ([]string, bool)
+	parts = func(v ssa.Value, depth int) ([]string, bool) {
+		if depth > 8 {
+			return nil, false
+		}
+		switch x := v.(type) {
+		case *ssa.Parameter:
+			if x == letters {
+				return nil, true
+			}
+		case *ssa.Call:
+			if g := x.Call.StaticCallee(); g != nil && g.Pkg != nil && g.Pkg.Pkg.Path() == "strings" && len(x.Call.Args) == 1 {
+				if o := origin(x.Call.Args[0], nil, 0); o == "raw" {
+					switch g.Name() {
+					case "ToLower":
+						return []string{"lower"}, true
+					case "ToUpper":
+						return []string{"upper"}, true
+					}
+				}
+			}
+		case *ssa.BinOp:
+			if x.Op == token.ADD {
+				a, okA := parts(x.X, depth+1)
+				b, okB := parts(x.Y, depth+1)
+				if okA && okB && len(a) == 1 && len(b) == 1 {
+					return []string{a[0], b[0]}, true
+				}
+			}
+		case *ssa.Slice:
+			in, ok := parts(x.X, depth+1)
+			if !ok {
+				return nil, false
+			}
+			if x.Low == nil && x.High == nil {
+				return in, true
+			}
+			if len(in) == 2 {
+				if x.Low == nil && x.High != nil && isDefLen(x.High) {
+					return in[:1], true
+				}
+				if x.High == nil && x.Low != nil && isDefLen(x.Low) {
+					return in[1:], true
+				}
+			}
+		case *ssa.UnOp:
+			if x.Op == token.MUL {
+				if name, ok := fieldOf(x.X, pkg, "alpha"); ok {
+					var res []string
+					cnt, all := 0, true
+					for _, bb := range fn.Blocks {
+						for _, ins := range bb.Instrs {
+							st, ok := ins.(*ssa.Store)
+							if !ok {
+								continue
+							}
+							if n, ok := fieldOf(st.Addr, pkg, "alpha"); !ok || n != name || cased(bb) || !reachesInstr(st, x) {
+								continue
+							}
+							// a store overwritten by a later one that dominates the load is not what is read
+							killed := false
+							for _, b2 := range fn.Blocks {
+								for _, i2 := range b2.Instrs {
+									s2, ok := i2.(*ssa.Store)
+									if !ok || s2 == st {
+										continue
+									}
+									if n2, ok := fieldOf(s2.Addr, pkg, "alpha"); ok && n2 == name && reachesInstr(st, s2) && !reachesInstr(s2, st) && (b2.Dominates(x.Block()) && (b2 != x.Block() || instrIndex(b2, s2) < instrIndex(b2, x))) {
+										killed = true
+									}
+								}
+							}
+							if killed {
+								continue
+							}
+							p, ok := parts(st.Val, depth+1)
+							if !ok {
+								all = false
+							}
+							if cnt == 0 {
+								res = p
+							} else if strings.Join(res, ",") != strings.Join(p, ",") {
+								all = false
+							}
+							cnt++
+						}
+					}
+					if cnt > 0 && all {
+						return res, true
+					}
+				}
+			}
+		}
+		return nil, false
+	}
+	covered := map[string]bool{}
+	judged, opaque := 0, false
+	var firstRange token.Pos
+	for _, b := range fn.Blocks {
+		if cased(b) {
+			continue
+		}
+		for _, ins := range b.Instrs {
+			rg, ok := ins.(*ssa.Range)
+			if !ok {
+				continue
+			}
+			if bt, ok := rg.X.Type().Underlying().(*types.Basic); !ok || bt.Kind() != types.String {
+				continue
+			}
+			// only loops that mark letters valid
+			marks := false
+			{
+				for _, bb := range fn.Blocks {
+					for _, i2 := range bb.Instrs {
+						if st, ok := i2.(*ssa.Store); ok {
+							if ia, ok := st.Addr.(*ssa.IndexAddr); ok {
+								if name, ok := fieldOf(ia.X, pkg, "alpha"); ok && name == "valid" {
+									if ex, ok := ia.Index.(*ssa.Extract); ok {
+										if nx, ok := ex.Tuple.(*ssa.Next); ok && nx.Iter == ssa.Value(rg) {
+											marks = true
+										}
+									}
+									if cv, ok := ia.Index.(*ssa.Convert); ok {
+										if ex, ok := cv.X.(*ssa.Extract); ok {
+											if nx, ok := ex.Tuple.(*ssa.Next); ok && nx.Iter == ssa.Value(rg) {
+												marks = true
+											}
+										}
+									}
+								}
+							}
+						}
+					}
+				}
+			}
+			if !marks {
+				continue
+			}
+			if firstRange == token.NoPos {
+				firstRange = rg.Pos()
+			}
+			p, ok := parts(rg.X, 0)
+			if !ok {
+				opaque = true
+				continue
+			}
+			judged++
+			for _, q := range p {
+				covered[q] = true
+			}
+		}
+	}
+	if judged > 0 || opaque {
+		key := "alphabet.newAlphabet/both-cases-marked"
+		switch {
+		case opaque || (covered["lower"] && covered["upper"]):
+			c.ok(rule, key, firstRange, "the loops that mark letters valid on the case-insensitive path walk the lower-case and the upper-case image of the definition")
+		default:
+			missing := "lower"
+			if covered["lower"] {
+				missing = "upper"
+			}
+			c.bad(rule, key, firstRange, "on the case-insensitive path no loop that marks letters valid walks the "+missing+"-case image of the definition: those letters are neither valid nor indexed, whatever the case the definition was written in should not matter")
+		}
+	}
 	// the non-ASCII test looks at the definition as given: case folding maps some non-ASCII letters (the Kelvin
 	// sign, the long s) to ASCII ones, so a definition folded first slips past the rejection
 	nAscii := 0
